@@ -137,7 +137,10 @@ type iterSV struct {
 func (vc *VC) rangeInit(x *ssa.Range, st *State) SV {
 	t := x.X.Type()
 	if _, ok := t.Underlying().(*types.Map); !ok {
-		panic(unsupported("range over string"))
+		// range over a string: position advances by the width of the rune at it (1..4 bytes)
+		name := "G|strpos." + x.Name()
+		vc.set(st, name, "Int", "0")
+		return iterSV{Sc: vc.val(x.X).(Sc), typ: t, name: name}
 	}
 	ks, _, _ := mapKeySort(t)
 	name := "G|seen." + x.Name()
@@ -152,6 +155,16 @@ func (vc *VC) next(x *ssa.Next, st *State, reach string) SV {
 	it, ok := vc.val(x.Iter).(iterSV)
 	if !ok {
 		panic(unsupported("next over non-map iterator"))
+	}
+	if x.IsString {
+		s := it.Sc.T
+		pos := vc.get(st, it.name, "Int")
+		okc := vc.define("more", "Bool", app("<", pos, app("slen", s)))
+		vc.assume("true", app("<=", "0", pos))
+		r := vc.define("rune", "Int", app("runeAt", s, pos))
+		w := vc.define("width", "Int", app("runeWidth", s, pos))
+		vc.set(st, it.name, "Int", vc.define("strpos", "Int", sIte(okc, app("+", pos, w), pos)))
+		return St{Typ: x.Type(), F: []SV{Sc{"Bool", okc}, Sc{"Int", pos}, Sc{"Int", r}}}
 	}
 	ks, kt, vt := mapKeySort(it.typ)
 	ss := fmt.Sprintf("(Array %s Bool)", ks)
